@@ -488,7 +488,33 @@ type TagMix struct {
 	Any interface{} `ion:"any"`
 }
 
-var staticTypes = []reflect.Type{reflect.TypeOf(DeepOuter{}), reflect.TypeOf(DeepSame{}), reflect.TypeOf(CaseFields{}), reflect.TypeOf(TagMix{}),
+// named (defined) types of every supported kind: reflection must go by kind, not by identity
+type NamedKey string
+type NamedInt int32
+type NamedUint uint16
+type NamedFloat float64
+type NamedBool bool
+type NamedBytes []byte
+type NamedInts []NamedInt
+type NamedArr [2]NamedKey
+type NamedMap map[NamedKey]NamedInt
+type NamedPtr *NamedInt
+type NamedMix struct {
+	K  NamedKey   `ion:"k"`
+	I  NamedInt   `ion:"i"`
+	U  NamedUint  `ion:"u"`
+	F  NamedFloat `ion:"f"`
+	B  NamedBool  `ion:"b"`
+	Y  NamedBytes `ion:"y"`
+	L  NamedInts  `ion:"l"`
+	A  NamedArr   `ion:"a"`
+	M  NamedMap   `ion:"m"`
+	P  NamedPtr   `ion:"p"`
+	MM map[NamedKey]NamedMap
+}
+
+var staticTypes = []reflect.Type{reflect.TypeOf(NamedMix{}), reflect.TypeOf(NamedMap(nil)), reflect.TypeOf(map[NamedKey][]NamedMix(nil)),
+	reflect.TypeOf(DeepOuter{}), reflect.TypeOf(DeepSame{}), reflect.TypeOf(CaseFields{}), reflect.TypeOf(TagMix{}),
 	reflect.TypeOf([]DeepOuter(nil)), reflect.TypeOf(map[string]CaseFields(nil)), reflect.TypeOf(&DeepSame{})}
 
 var tagChoices = []string{"", "", "", `ion:"renamed"`, `ion:",omitempty"`, `ion:"x_y,omitempty"`, `ion:"-"`}
@@ -507,6 +533,9 @@ func genType(r *rand.Rand, depth int) reflect.Type {
 	case 1:
 		return reflect.ArrayOf(1+r.Intn(3), genType(r, depth-1))
 	case 2:
+		if r.Intn(4) == 0 {
+			return reflect.MapOf(reflect.TypeOf(NamedKey("")), genType(r, depth-1))
+		}
 		return reflect.MapOf(reflect.TypeOf(""), genType(r, depth-1))
 	case 3:
 		return reflect.PtrTo(genType(r, depth-1))
@@ -653,7 +682,7 @@ func fillValue(r *rand.Rand, v reflect.Value, depth int, nested bool) {
 		for i := r.Intn(4); i > 0; i-- {
 			e := reflect.New(t.Elem()).Elem()
 			fillValue(r, e, depth-1, nested)
-			m.SetMapIndex(reflect.ValueOf([]string{"k1", "k2", "a b", "", "$5", "null"}[r.Intn(6)]), e)
+			m.SetMapIndex(reflect.ValueOf([]string{"k1", "k2", "a b", "", "$5", "null"}[r.Intn(6)]).Convert(t.Key()), e)
 		}
 		v.Set(m)
 	case reflect.Ptr:
